@@ -26,7 +26,7 @@ ASSUMPTIONS = [
     'fractional-number ids: the statement says pjrpc admits integers only; accepting or rejecting a float id is not judged',
     'an empty array is judged for batch *requests* only (the statement names only those)',
 ]
-SHARDS = {'quick': 4, 'thorough': 16}
+SHARDS = {'quick': 8, 'thorough': 16}
 TIMEOUT = {'quick': 300, 'thorough': 1800}
 ANCHORS = [
     ('pjrpc/common/v20.py', 'Request.from_json'),
@@ -45,7 +45,7 @@ FLOORS = {'*': {
     'request:accepted': 100, 'request:rejected': 1000, 'response:accepted': 100, 'response:rejected': 1000,
     'error:accepted': 50, 'error:rejected': 500, 'batch-request:accepted': 20, 'batch-request:rejected': 50,
     'batch-response:accepted': 20, 'batch-response:rejected': 50, 'batch:identity-error': 10,
-    'history:failed-op': 200, 'history:ops': 2000, 'nonobject': 20,
+    'history:failed-op': 200, 'history:ops': 2000, 'nonobject': 20, 'ambient:batch-invariant': 1000,
 }}
 
 A = '__absent__'
@@ -55,6 +55,23 @@ ERR_SHAPES = [A, None, 0, 'x', [], {}, GOOD_ERR, {'code': 5, 'message': 'm', 'da
               {'code': 5, 'message': ''}, {'code': True, 'message': 'm'}, {'code': 1.0, 'message': 'm'}, {'code': '5', 'message': 'm'},
               {'message': 'm'}, {'code': 5}, {'code': 5, 'message': None}, {'code': -32601, 'message': 'Method not found', 'data': []},
               {'code': 0, 'message': ''}]
+
+
+def setup(ctx):
+    # the icontract invariants cost ~5x on this workload: one shard runs under them
+    if ctx.shard == 0:
+        from .. import ambient
+        ambient.install()
+
+
+def finish(ctx):
+    from .. import ambient
+    rep = ambient.REPORT
+    ctx.hit('ambient:batch-invariant', rep['evaluations'].get('batch-invariant', 0))
+    ctx.note('ambient', {'evaluations': rep['evaluations'], 'icontract': rep['icontract']})
+    ctx.current = ('ambient', {})
+    for v in rep['violations']:
+        ctx.violation(f"ambient:{v['contract']}:{v.get('what', '')[:60]}", 'ambient', (v['contract'], v.get('what')), **v)
 
 
 def build(**members):
